@@ -1,0 +1,55 @@
+//go:build verif
+
+// Contracts for the label helpers (labels.go, defaults.go, dnsutil).  Comment-only file.
+//
+// Vocabulary (RFC 1035 section 5.1 presentation format): a position is "escaped" when it is preceded by an
+// unescaped backslash; a label separator is an unescaped dot that is not the last octet of the string.
+// The wire-format label sequence of a name is obtained by cutting at exactly these separators (this is
+// what packDomainName does, see verif_contracts_names.go), so "agrees with the wire labels" is stated
+// here as agreement with sep/nsep.
+
+package dns
+
+//@ spec escd(s seq, i int) bool = i > 0 && s[i-1] == '\\' && !escd(s, i-1) decreases i
+//@ spec sep(s seq, i int) bool = 0 <= i && i < len(s)-1 && s[i] == '.' && !escd(s, i)
+//@ spec nsep(s seq, i int) int = i <= 0 ? 0 : nsep(s, i-1) + (sep(s, i-1) ? 1 : 0) decreases i
+//@ spec lower(c int) int = (c >= 'A' && c <= 'Z') ? c + 32 : c
+
+//@ func NextLabel [C19 C14]
+//@   requires 0 <= offset
+//@   ensures empty: len(s) == 0 ==> i == 0 && end
+//@   ensures next:  len(s) > 0 && !end ==> offset < i && i <= len(s)-1 && sep(s, i-1) && nsep(s, i) == nsep(s, offset) + 1
+//@   ensures nosep: len(s) > 0 && !end ==> (forall k in offset..i-1 :: !sep(s, k))
+//@   ensures last:  len(s) > 0 && end ==> i == max(offset, len(s)-1) + 1 && (forall k in offset..len(s) :: !sep(s, k))
+//@   ensures lastn: len(s) > 0 && end && offset <= len(s)-1 ==> nsep(s, len(s)-1) == nsep(s, offset)
+//@   loop 1 invariant offset <= i && i <= max(offset, len(s)-1) && (forall k in offset..i :: !sep(s, k)) && nsep(s, i) == nsep(s, offset)
+//@   loop 1 decreases len(s) - i
+//@   loop 2 invariant 0-1 <= j && j < i && (escd(s, i) == (escd(s, j+1) != ((i-j-1) % 2 == 1)))
+//@   loop 2 decreases j + 1
+//@   pure
+
+//@ func CountLabel [C19]
+//@   ensures len(s) > 0 && !(len(s) == 1 && s[0] == '.') ==> labels == nsep(s, len(s)-1) + 1
+//@   loop 1 invariant 0 <= off && 0 <= labels && (len(s) > 0 ==> off <= len(s)-1 && labels == nsep(s, off))
+//@   loop 1 decreases len(s) - off
+//@   pure
+
+//@ func equal [C19 C20 C14]
+//@   ensures ret0 == (len(a) == len(b) && (forall k in 0..len(a) :: lower(a[k]) == lower(b[k])))
+//@   loop 1 invariant 0-1 <= i && i < la && la == len(a) && lb == len(b) && la == lb
+//@   loop 1 invariant forall k in i+1..la :: lower(a[k]) == lower(b[k])
+//@   loop 1 decreases i + 1
+//@   pure
+
+//@ func IsFqdn [C19 C03]
+//@   ensures fq: ret0 == (len(s) > 0 && s[len(s)-1] == '.' && !escd(s, len(s)-1))
+//@   loop 1 invariant 0-1 <= i && i < len(s) && (escd(old(s), len(old(s))-1) == (escd(old(s), i+1) != ((len(old(s))-1-i-1) % 2 == 1)))
+//@   loop 1 decreases i + 1
+//@   pure
+
+//@ func Fqdn [C19 C03]
+//@   ensures same:  IsFqdnSpec(s) ==> ret0 == s
+//@   ensures added: !IsFqdnSpec(s) ==> len(ret0) == len(s) + 1 && ret0[len(s)] == '.' && (forall k in 0..len(s) :: ret0[k] == s[k])
+//@   pure
+
+//@ spec IsFqdnSpec(s seq) bool = len(s) > 0 && s[len(s)-1] == '.' && !escd(s, len(s)-1)
